@@ -189,6 +189,11 @@ func (m *DB) Step(op *cs.Op, out *cs.Outcome) string {
 		}
 		m.Closed = false
 		return ""
+	case "storm":
+		if coll(op.Coll) == nil {
+			m.Colls[op.Coll] = &Coll{Docs: map[string]cs.Doc{}, Indexes: map[string]bool{}}
+		}
+		return ""
 	case "createcoll":
 		var conds []string
 		if coll(op.Coll) != nil {
